@@ -833,6 +833,14 @@ impl SvgElement {
             || self.has_attr("surround")
             || self.has_attr("inside")
             || self.has_foreign_position()
+            || self.has_pending_offset()
+    }
+
+    /// True while a `dx` / `dy` offset still waits to be folded into the position (on text
+    /// elements and filter offsets they are native attributes and stay).
+    fn has_pending_offset(&self) -> bool {
+        !matches!(self.name.as_str(), "text" | "tspan" | "feOffset")
+            && (self.has_attr("dx") || self.has_attr("dy"))
     }
 
     /// True while the element still carries position attributes which are not native to its
